@@ -4,8 +4,8 @@ P=$1; shift; PROP=$1; shift
 cd /repo || exit 9
 git diff --quiet || { echo "repo dirty"; exit 9; }
 if ! git apply "$P" 2>/dev/null; then
-  patch -p1 --fuzz=3 -s < "$P" || { echo "PATCH DOES NOT APPLY"; git checkout -- . ; exit 9; }
+  patch -p1 --fuzz=3 -s < "$P" || { echo "PATCH DOES NOT APPLY"; git checkout -- . ; git clean -fdq -- aquacrop tests; exit 9; }
 fi
 cd /verif && ./check $PROP --tier quick --no-evidence "$@" 2>&1 | grep -E "^\[C|VIOLATION|INCONCLUSIVE|KNOWN" | cut -c1-260 | head -8
 rc=$?
-cd /repo && git checkout -- . && find . -name "*.orig" -delete -o -name "*.rej" -delete
+cd /repo && git checkout -- . && git clean -fdq -- aquacrop tests
